@@ -16,7 +16,7 @@ func init() {
 		Patterns: []string{"./pkg/module/http2", "./pkg/module/http2/hpack"},
 		Explanation: "(W1) every DATA payload handed to Framer.writeData is remain[:allowed] where allowed is the first result of awaitFlowControl evaluated in the same loop iteration, and the loop continues with remain[allowed:]; an empty/nil payload (end-of-stream marker) is the only other form; " +
 			"(W2) in every awaitFlowControl the returned amount starts from flow.available(), is positive, is clamped by the caller's remaining bytes and by the peer's maximum frame size, is debited with flow.take before it is returned, the wait is cond.Wait() under the connection mutex and closed connection/stream are checked inside the loop; " +
-			"(W3) flow.available is the minimum of the stream and the connection window and flow.take debits both and refuses more than available. Wire compatibility of framing and HPACK with x/net is not decided. (W4) every flow.add on a send window of a shared connection/stream, and every stream removal, is followed by cond.Broadcast() before the frame handler returns, on every non-error path, following the caller chain up to the M* connection handlers. (W5) path-sensitively over stream id == 0 and stream pointer == nil: no feasible path in processWindowUpdate reaches flow.add on the connection window unless the id was tested to be 0. (W7) in the HPACK package dynamicTable.maxSize is written only by a dynamicTable method with evict() following on every path, every growth of the table is followed by evict(), and every encoder function that lowers minSize or raises tableSizeUpdate applies setMaxSize to the table on that path (what is announced to the peer has been applied). (W6) the HTTP/2 frame-reader clauses of C07.B2h evaluated as obligations of this property (progress, single last drain by the reported size, HPACK decoder written only when no further ReadFrame can follow).",
+			"(W3) flow.available is the minimum of the stream and the connection window and flow.take debits both and refuses more than available. Wire compatibility of framing and HPACK with x/net is not decided. (W4) every flow.add on a send window of a shared connection/stream, and every stream removal, is followed by cond.Broadcast() before the frame handler returns, on every non-error path, following the caller chain up to the M* connection handlers. (W5) path-sensitively over stream id == 0 and stream pointer == nil: no feasible path in processWindowUpdate reaches flow.add on the connection window unless the id was tested to be 0. (W7) in the HPACK package dynamicTable.maxSize is written only by a dynamicTable method with evict() following on every path, every growth of the table is followed by evict(), and every encoder function that lowers minSize or raises tableSizeUpdate applies setMaxSize to the table on that path (what is announced to the peer has been applied). (W6) the HTTP/2 frame-reader clauses of C07.B2h evaluated as obligations of this property (progress, single last drain by the reported size, HPACK decoder written only when no further ReadFrame can follow). (W8) in every MClientConn function that inserts into streams, the newStream call and the insertion happen with mu held and no Unlock of mu on any path between them.",
 		Run: runC18,
 	})
 }
@@ -33,6 +33,8 @@ func runC18(c *Ctx) {
 	defer runC07H2(c, "", "C18.W6")
 	c.Rule("C18.W7", "HPACK encoder table mirrors the peer across size changes: size<=maxSize kept eagerly, announced sizes were applied", 4)
 	defer c18HpackTable(c)
+	c.Rule("C18.W8", "a new client stream gets its send window and is registered for SETTINGS updates under one hold of the connection mutex", 1)
+	defer c18WindowInitAtomic(c)
 	c.NotDecided = append(c.NotDecided, "wire compatibility of frames and HPACK with golang.org/x/net/http2 (value-level)", "behaviour under concrete WINDOW_UPDATE schedules (liveness of the wait)", "SETTINGS handling that updates maxFrameSize / initial window")
 	c.Assumptions = append(c.Assumptions, "sync.Cond.Wait releases and re-acquires the mutex it was created with")
 
